@@ -1,4 +1,9 @@
 import Driver.C04
+import Driver.C10
+import Driver.C08
+import Driver.C07
+import Driver.C06
+import Driver.C05
 import Driver.C12
 import Driver.C09
 import Driver.C02
@@ -13,6 +18,15 @@ partial def loop (h : IO.FS.Stream) (out : IO.FS.Stream) (f : String → String)
   loop h out f
 
 def modes : List (String × (String → String)) := [
+  ("c10plan", C10.handlePlan),
+  ("c10", C10.handle),
+  ("c08lit", C08.handleLit),
+  ("c08str", C08.handleStr),
+  ("c08", C08.handle),
+  ("c07-plist", C07.handlePlist),
+  ("c07-pbind", C07.handlePbind),
+  ("c06", C06.handle),
+  ("c05", C05.handle),
   ("c12", C12.handle),
   ("c09", C09.handle),
   ("c04", C04.handle),
